@@ -16,6 +16,28 @@ from .use import Use
 from .variable import Variable
 
 
+def encloses(obj, scope) -> bool:
+    """Whether ``scope`` is ``obj`` itself or lies inside it, going by the
+    parent links of ``scope`` or by the children of ``obj``"""
+    seen = set()
+    above = scope
+    while above is not None and id(above) not in seen:
+        if above is obj:
+            return True
+        seen.add(id(above))
+        above = above.parent
+    seen = set()
+    below = [obj]
+    while below:
+        inner = below.pop()
+        if inner is scope:
+            return True
+        if id(inner) not in seen:
+            seen.add(id(inner))
+            below.extend(getattr(inner, "children", []))
+    return False
+
+
 class FortranAST:
     def __init__(self, file_obj=None):
         self.file = file_obj
@@ -277,6 +299,10 @@ class FortranAST:
                         parent_scope.children.remove(obj)
                     added_entities = []
                     for child in include_ast.inc_scope.children[:]:
+                        # Files that include each other: a scope is never made
+                        # a child of itself or of one of its descendants
+                        if encloses(child, parent_scope):
+                            continue
                         added_entities.append(child)
                         if parent_scope is not None:
                             parent_scope.add_child(child)
